@@ -328,4 +328,36 @@ theorem finishSet_exp (d : Decimal) (s : Bool) (dr : Int) (ce : Nat) (sg eds res
     simp only [List.cons_append] at hexp
     rw [hexp]
 
+/-- `finishSet_exp` without evaluating the exponent loop -/
+theorem finishSet_exp' (d : Decimal) (s : Bool) (dr : Int) (ce : Nat) (sg eds rest : List Nat) (es : Int)
+    (hce : ce = 101 ∨ ce = 69) (hsg : SignBytes sg es) (heds : ∀ c ∈ eds, 48 ≤ c ∧ c ≤ 57) (hne : eds ≠ []) :
+    finishSet (d, s, dr, ce :: (sg ++ eds ++ rest)) =
+      { (if s then d else { d with dp := (d.nd : Int) + dr }) with
+        dp := (if s then d else { d with dp := (d.nd : Int) + dr }).dp + expLoop (eds ++ rest) 0 * es } := by
+  unfold finishSet
+  simp only
+  rw [if_pos hce]
+  rcases hsg with ⟨h1, h2⟩ | ⟨h1, h2⟩ | ⟨h1, h2⟩
+  · subst h1 h2
+    simp only [List.cons_append, List.nil_append, List.append_assoc]
+  · subst h1 h2
+    simp only [List.cons_append, List.nil_append, List.append_assoc]
+  · subst h1 h2
+    obtain ⟨c0, eds', rfl⟩ : ∃ c0 eds', eds = c0 :: eds' := by
+      cases eds with
+      | nil => exact absurd rfl hne
+      | cons c0 eds' => exact ⟨c0, eds', rfl⟩
+    have hc0 := heds c0 (List.mem_cons_self ..)
+    simp only [List.nil_append, List.cons_append]
+    have hm : (match c0 :: (eds' ++ rest) with
+        | 43 :: r' => ((1 : Int), r')
+        | 45 :: r' => (-1, r')
+        | _ => (1, c0 :: (eds' ++ rest))) = (1, c0 :: (eds' ++ rest)) := by
+      split
+      · rename_i h; simp at h; omega
+      · rename_i h; simp at h; omega
+      · rfl
+    rw [hm]
+
+
 end Sonic.Proofs.Dec
